@@ -265,6 +265,9 @@ type SMOptions struct {
 	RaceCanary   bool // keep the deliberately unsynchronised field (race detector oracle)
 	RecordApply  bool
 	OpenFailStop bool
+	// AtSite is called (outside of every lock of the instance) when a call reaches one of the
+	// crash sites at the state machine boundary: SiteSyncAfterRecover .. SiteAnySync
+	AtSite func(host int, site int32)
 	// StrictCmd: every command handed to Update must be one that MakeCmd produced (the clients
 	// of the stage propose nothing else)
 	StrictCmd bool
@@ -275,6 +278,28 @@ type SMOptions struct {
 	// machines add 1-2 external files, derived from the data, to every snapshot and verify
 	// them on recovery.
 	ExtDir func(host int) string
+}
+
+// Crash sites at the user state machine boundary (continuing the step-worker points 1 and 2).
+const (
+	SiteSyncAfterRecover int32 = 3 // entry of the first Sync that follows a RecoverFromSnapshot
+	SiteRecoverExit      int32 = 4 // RecoverFromSnapshot is about to return
+	SiteSaveEntry        int32 = 5 // SaveSnapshot entered
+	SiteSaveExit         int32 = 6 // SaveSnapshot wrote everything and is about to return
+	SiteAnySync          int32 = 7 // entry of any Sync
+	SiteLast             int32 = 7
+)
+
+// SiteName names a crash site.
+func SiteName(p int32) string {
+	return [...]string{"arbitrary-moment", "before-SaveRaftState", "after-SaveRaftState", "entry-of-first-Sync-after-RecoverFromSnapshot",
+		"exit-of-RecoverFromSnapshot", "entry-of-SaveSnapshot", "exit-of-SaveSnapshot", "entry-of-Sync"}[p]
+}
+
+func (s *SMInst) site(p int32) {
+	if s.opt.AtSite != nil {
+		s.opt.AtSite(s.Host, p)
+	}
 }
 
 // ballastByte: byte i of the ballast / of external file id for data with the given hash.
@@ -333,6 +358,8 @@ type SMInst struct {
 
 	dmu  sync.RWMutex // data lock (the SM protects itself: monitors must not crash the process)
 	data *kvData
+
+	afterRecover int32 // a RecoverFromSnapshot returned and no Sync was entered since
 
 	// canary is written in the exclusive methods and read in the shared ones
 	// of the plain SM without synchronisation: every breach of the threading
@@ -686,6 +713,8 @@ func (s *SMInst) lookup(q interface{}) (interface{}, error) {
 }
 
 func (s *SMInst) saveTo(d *kvData, w io.Writer, stopc <-chan struct{}) error {
+	s.site(SiteSaveEntry)
+	defer s.site(SiteSaveExit)
 	if s.opt.SlowSave > 0 {
 		select {
 		case <-time.After(s.opt.SlowSave):
@@ -878,6 +907,8 @@ func (s *SMInst) recoverFrom(r io.Reader, files ...sm.SnapshotFile) error {
 		s.openIdx = d.Applied
 	}
 	s.mu.Unlock()
+	atomic.StoreInt32(&s.afterRecover, 1)
+	s.site(SiteRecoverExit)
 	return nil
 }
 
@@ -976,6 +1007,10 @@ func (o *onDiskSM) Open(stopc <-chan struct{}) (uint64, error) {
 func (o *onDiskSM) Update(ents []sm.Entry) ([]sm.Entry, error) { return o.s.update(ents), nil }
 func (o *onDiskSM) Lookup(q interface{}) (interface{}, error)  { return o.s.lookup(q) }
 func (o *onDiskSM) Sync() error {
+	if atomic.SwapInt32(&o.s.afterRecover, 0) == 1 {
+		o.s.site(SiteSyncAfterRecover)
+	}
+	o.s.site(SiteAnySync)
 	o.s.enterExcl("Sync")
 	defer o.s.exitExcl("Sync")
 	o.s.dmu.RLock()
